@@ -210,6 +210,9 @@ class Compiler:
                 for f in split_top(rest[1:-1].strip()):
                     ops.append(s.operand(body, f.split(': ', 1)[1]))
             return ('closure', span, ops)
+        # bare function item (`_1 = <Value as PartialOrd>::ge;`, `_1 = core::str::<impl str>::len;`)
+        if not t.endswith((')', '}', ']')) and re.search(r'::(?:<[^<>]*>::)?[a-z_]\w*(?:::<.*>)?$', t) and not re.search(r'::[A-Z]\w*$', t):
+            return ('use', ('const', ('named', strip_lifetimes(t))))
         # ADT aggregate
         t2 = strip_lifetimes(t)
         m = re.match(r'^(.*?)\s*\{ (.*) \}$', t2, re.S)
@@ -723,6 +726,8 @@ class Exec:
             if b.kind.startswith('static'): r = r
         elif b is not None and b.kind == 'fn':
             r = FnRef(t)
+        elif names and names[-1][:1].islower() and not t.endswith('}'):
+            r = FnRef(t)        # a function item (`PartialEq::eq`, `str::len`, ...)
         else:
             # unit struct / unit variant / fn item of std
             rv = None
